@@ -101,7 +101,7 @@ def gen_recipe(rng, fmt, tier="quick"):
         r["dims"] = rng.choice([[["time", nt], ["site", 2]], [["time", nt]], [["time", nt], ["lat", 2], ["lon", 3]], [["site", 3], ["time", nt]], [["site", 2]], []])
     elif base == "funwave":
         r["dims"] = []
-        r["nd"] = rng.choice([4, 6, 8, 9, 12, 24, 36])
+        r["nd"] = rng.choice([4, 6, 8, 9, 12, 24, 36, 0])      # 0: a frequency spectrum E(f)
         r["dir"]["order"] = rng.choice(["asc", "asc", "rot", "shuf"])
         r["dtype"] = "float64"
         # keep amplitudes sqrt(8 E df dd)/2 below 100 m, the widest value the format's fixed %12.8f columns can hold
